@@ -5,6 +5,8 @@
    Histories = all lists of ops with non-negative clock advances, from a freshly built breaker. *)
 From Coq Require Import QArith.
 From Oxy Require Import Base.Prelude Model.Breaker Proofs.BreakerProofs.
+From Oxy Require Gen.Consts.
+From Coq Require Import QArith.
 Open Scope Z_scope.
 
 (* At every instant t of a recovery period (every reachable recovering state, and every later instant t
@@ -97,6 +99,13 @@ Proof.
   exact (proj2 (proj2 (shield c s (Complete code h lats) ops Hne Htr Ht Hn)) h').
 Qed.
 Print Assumptions C12_retrip.
+
+(* the model's ramp (factor 1/2, strict comparison) is the one the source has now: Gen/Consts.v is regenerated from
+   cbreaker/ratio.go on every run *)
+Theorem C12_constants_match_source :
+  (Consts.rampFactor == 1 # 2)%Q /\ Consts.rampStrict = true.
+Proof. split; reflexivity. Qed.
+Print Assumptions C12_constants_match_source.
 
 (* non-vacuity: the history of C05_history_exists reaches, after its 19th op, a recovering state with
    1 passed of 6 at elapsed 4 s of 8 s (1/6 <= 1/4), whose last four arrivals were refused, refused at the
